@@ -28,6 +28,12 @@ func (v Var) TypeString() string {
 	return types.TypeString(v.vr.Type(), v.packageQualifier)
 }
 
+// QualifiedString returns the given type, which must be mentioned by the
+// variable's own type, written like TypeString writes the variable's type.
+func (v Var) QualifiedString(t types.Type) string {
+	return types.TypeString(t, v.packageQualifier)
+}
+
 // packageQualifier is a types.Qualifier.
 func (v Var) packageQualifier(pkg *types.Package) string {
 	path := stripVendorPath(pkg.Path())
